@@ -109,6 +109,8 @@ def wfRefOf (t : Ty) (inl : Bool) : Bool :=
   match t with
   | .cell => true
   | .ptr _ .cell => true
+  | .prim .w5Actions => true
+  | .ptr _ (.prim .w5Actions) => true
   | _ => inl
 
 mutual
@@ -181,6 +183,13 @@ def Prim.payloadDom : Val → Bool
     cellOk c && 0 ≤ mode && mode < 256 && Prim.payloadDom rest
   | _ => false
 
+/-- wallet v5 out-list: (#, mode, ^msg) triples; the message cell is neither a library nor a pruned-branch cell -/
+def Prim.w5Dom : Val → Bool
+  | .nil => true
+  | .cons (.cons .magic (.cons (.int mode) (.cons (.cons (.cell c) .nil) .nil))) rest =>
+    cellOk c && c.ty != tyLibrary && 0 ≤ mode && mode < 256 && Prim.w5Dom rest
+  | _ => false
+
 def Prim.inDom (p : Prim) (v : Val) : Bool :=
   match p, v with
   | .unary, .int n => 0 ≤ n
@@ -211,6 +220,7 @@ def Prim.inDom (p : Prim) (v : Val) : Bool :=
     bs == Prim.s_cskip_no_state || bs == Prim.s_cskip_bad_state
       || bs == Prim.s_cskip_no_gas || bs == Prim.s_cskip_suspended
   | .payloadV1toV4, v => Prim.valLen v ≤ 4 && Prim.payloadDom v
+  | .w5Actions, v => Prim.w5Dom v
   | .vmCellSlice, .cons (.cons (.cell c) .nil) (.cons (.int a) (.cons (.int b) (.cons (.int x) (.cons (.int y) .nil)))) =>
     cellOk c && 0 ≤ a && a ≤ b && 0 ≤ x && x ≤ y
   | _, _ => false
